@@ -2106,6 +2106,40 @@ mut("handoff-after-mark-debug-assert", "break", ["C04", "C06"], "the cascade mar
 mut("ok-twin-C05-7-update-state", "benign", [], "the seven CAS loops on the count word folded into one RcInner::update_state(|old| ..) helper "
     "(S-C05-7 with its one slip corrected)", [{"patch": "selftest/twins/C05-7-update-state.diff"}])
 
+QF = "src/ebr_impl/sync/queue.rs"
+TW17 = {"patch": "selftest/twins/C17-7-front-popfront.diff"}
+mut("ok-twin-C17-7-front-popfront", "benign", [], "queue refactored into front() / pop_front(head, next) / advance_tail, pop_internal and "
+    "pop_if_internal gone: the predicate and the CAS use the same front() (S-C17-7 with its slip corrected)", [TW17])
+mut("combo-twin-C17-7-lost-race-none", "break", ["C17"], "on top of the twin: try_pop_if answers None after a lost race",
+    [TW17, ed(QF, """                return popped;
+            }
+            backoff.spin();""", """                return popped;
+            }
+            return None;""")], ["EBR-QUEUE"])
+mut("combo-twin-C17-7-read-on-err", "break", ["C17", "C15"], "on top of the twin: pop_front reads the element although the head CAS failed",
+    [TW17, ed(QF, """        self.head
+            .compare_exchange(head, next, Release, Relaxed, guard)
+            .map_err(|_| ())?;
+
+        // Advance the tail so that we don't retire a pointer to a reachable node.
+        let tail = self.tail.load(Relaxed, guard);""", """        let _ = self.head
+            .compare_exchange(head, next, Release, Relaxed, guard);
+
+        // Advance the tail so that we don't retire a pointer to a reachable node.
+        let tail = self.tail.load(Relaxed, guard);""")], ["EBR-QUEUE"])
+mut("combo-twin-C17-7-second-front", "break", ["C17"], "on top of the twin: the node to install is re-read after the predicate",
+    [TW17, ed(QF, """            if !approved {
+                return None;
+            }
+            if let Ok(popped) = self.pop_front(head, next, guard) {""", """            if !approved {
+                return None;
+            }
+            let (head, next) = self.front(guard);
+            if let Ok(popped) = self.pop_front(head, next, guard) {""")], ["EBR-QUEUE"])
+mut("combo-twin-C17-7-relaxed-next", "break", ["C17"], "on top of the twin: front() loads next with Relaxed",
+    [TW17, ed(QF, "let next = unsafe { head.deref() }.next.load(Acquire, guard);", "let next = unsafe { head.deref() }.next.load(Relaxed, guard);")],
+    ["ORD-QUEUE"])
+
 # behaviour-preserving refactorings written by sub-agents told to keep every interleaving's behaviour (selftest/refactors/)
 for f in sorted(glob.glob(os.path.join(HERE, "refactors", "*.diff"))):
     name = os.path.basename(f)[:-5]
